@@ -186,11 +186,21 @@ func (reg *ResourceRegistry) addResource(identifier, version string, index *Inde
 	res, ok := reg.resources[identifier]
 	if !ok {
 		res = reg.newResource(identifier)
-		reg.resources[identifier] = res
+	}
+
+	// Only register the resource and assign it to the index if the version was
+	// actually added. A resource without any version cannot be selected or
+	// served, GetFile would dereference its missing selected version.
+	err := res.AddVersion(version, available, currentRelease, preRelease)
+	if err != nil {
+		return err
 	}
 	res.Index = index
+	if !ok {
+		reg.resources[identifier] = res
+	}
 
-	return res.AddVersion(version, available, currentRelease, preRelease)
+	return nil
 }
 
 // AddResources adds resources to the registry. Errors are logged, the last one is returned. Despite errors, non-failing resources are still added. Does _not_ select new versions.
